@@ -399,7 +399,7 @@ AllBytes(D, Ls, body, be, u) ==
 RECURSIVE CatStrings(_, _)
 CatStrings(tab, i) == IF i > Len(tab) THEN <<>> ELSE tab[i] \o <<0>> \o CatStrings(tab, i + 1)
 
-WriteResult(D, be) ==
+WriteResultX(D, be, bytes) ==
     LET nu == Len(D.units)
         Ls == [u \in 1..nu |-> Layout(D.units[u])]
         starts == UnitStarts(Ls, 1, 0)
@@ -431,8 +431,33 @@ WriteResult(D, be) ==
     IN IF firstErr # "" THEN [ok |-> FALSE, err |-> firstErr]
        ELSE [ok |-> TRUE,
              units |-> [u \in 1..nu |-> ExpUnit(Reordered(D.units[u]), Ls[u], pos, u, starts[u], cxOf(u, FALSE), be)],
-             info |-> AllBytes(D, Ls, body, be, 1),
-             str |-> CatStrings(strtab, 1)]
+             info |-> IF bytes THEN AllBytes(D, Ls, body, be, 1) ELSE <<>>,
+             str |-> IF bytes THEN CatStrings(strtab, 1) ELSE <<>>]
+WriteResult(D, be) == WriteResultX(D, be, TRUE)
+
+-----------------------------------------------------------------------------
+(* Part 5: scripts.                                                            *)
+(* calls; a script is a sequence of call records; Apply replays it on D       *)
+StrOf(val) == IF val.k = "StringRef" THEN <<val.s>> ELSE <<>>
+LStrOf(val) == IF val.k = "LineStringRef" THEN <<val.s>> ELSE <<>>
+ApplyCall(D, k) ==
+    LET U == D.units[k.u] IN
+    CASE k.op = "add" -> [D EXCEPT !.units[k.u] = AddNew(U, k.p, k.tag)]
+      [] k.op = "reserve" -> [D EXCEPT !.units[k.u] = Reserve(U)]
+      [] k.op = "add_reserved" -> [D EXCEPT !.units[k.u] = AddReserved(U, k.e, k.p, k.tag)]
+      [] k.op = "set" -> [D EXCEPT !.units[k.u] = SetAttr(U, k.e, k.name, k.val),
+                                   !.strs = @ \o StrOf(k.val), !.lstrs = @ \o LStrOf(k.val)]
+      [] k.op = "delete" -> [D EXCEPT !.units[k.u] = DeleteAttr(U, k.e, k.name)]
+      [] k.op = "sibling" -> [D EXCEPT !.units[k.u] = SetSibling(U, k.e, k.v)]
+      [] k.op = "delete_child" -> [D EXCEPT !.units[k.u] = DeleteChild(U, k.p, k.e)]
+RECURSIVE Apply(_, _, _)
+Apply(D, calls, i) == IF i > Len(calls) THEN D ELSE Apply(ApplyCall(D, calls[i]), calls, i + 1)
+Start(encs) == [units |-> [u \in 1..Len(encs) |-> NewUnit(encs[u])], strs |-> <<>>, lstrs |-> <<>>]
+
+(* the writer removes DW_AT_stmt_list from a root without line program and  *)
+(* refuses LineProgramRef elsewhere                                         *)
+Normalise(D) == [D EXCEPT !.units = [u \in DOMAIN D.units |-> DeleteAttr(D.units[u], 1, "DW_AT_stmt_list")]]
+
 
 (* the stem lemma of the two-pass layout: predicted size = emitted length *)
 SizeIsEmitLen(val, enc, cx) ==
